@@ -29,6 +29,8 @@ def _case(draw, tier):
     spec = draw(specs.full_spec(max_nodes=8, p_conn=0.25, p_dv=0.4, p_con=0.2, small_conn=True))
     if draw(ints(0, 3)) == 0:
         spec = draw(specs.add_metrics(spec, max_met=2))
+    if draw(ints(0, 2)) == 0:
+        spec['obj_ids'] = True   # string identities: node hashes depend on the process's hash seed
     return {'spec': spec, 'pick': draw(ints(0, 10**6)),
             'transport': draw(ints(0, CHILD_EVERY[tier]-1)) == 0,
             'hashseed': draw(st.sampled_from([1, 2, 12345])), 'salt': draw(st.sampled_from([0, 3, 5]))}
@@ -36,6 +38,29 @@ def _case(draw, tier):
 
 def strategy(tier):
     return _case(tier)
+
+
+def _tie_specs():
+    """Shared option nodes whose kept option id ties with a sibling's (add_selection_choice only numbers options that
+    have no id yet): the option order must not depend on hashes"""
+    out = []
+    for obj_ids in (False, True):
+        nodes = {n: {'k': 'gen'} for n in ['r', 'sa', 'sb', 'sc', 'x', 'y', 'z', 'w', 'v', 'lx', 'ly', 'lz', 'lw', 'lv']}
+        out.append({'salt': 0, 'obj_ids': obj_ids, 'nodes': nodes,
+                    'edges': [['r', 'sa'], ['r', 'sb'], ['r', 'sc'], ['x', 'lx'], ['y', 'ly'], ['z', 'lz'], ['w', 'lw'],
+                              ['v', 'lv']],
+                    'choices': [{'id': 'A', 'origin': 'sa', 'opts': ['x', 'y']},
+                                {'id': 'B', 'origin': 'sb', 'opts': ['z', 'x', 'w']},
+                                {'id': 'C', 'origin': 'sc', 'opts': ['v', 'x']}],
+                    'incompat': [], 'start': ['r'], 'conns': [], 'cons': []})
+    return out
+
+
+def fixed_cases(tier):
+    # seed independent: tie specs rebuilt in processes with other hash seeds / node-id salts
+    for spec in _tie_specs():
+        for hs, salt in ((1, 3), (2, 5), (3, 0), (12345, 3), (7, 5), (8, 0)):
+            yield {'spec': spec, 'pick': 5, 'transport': True, 'hashseed': hs, 'salt': salt}
 
 
 def name_of(node):
